@@ -359,6 +359,71 @@ theorem dec_resp_conforms (r : Resp) (h : WFResp r) :
 
 /-! ### bit packing: LSB first, zero padded -/
 
+/-! ### file records (FC 20 request, FC 21 request and response): conformance for every list of sub-requests -/
+
+def WFRec (r : FileRec) : Prop := U16 r.fileNumber ∧ U16 r.recordNumber ∧ U16 r.recordLength
+
+/-- a write sub-request carries `record_length` registers of data -/
+def WFRecWrite (r : FileRec) : Prop := WFRec r ∧ r.recordData.length = 2 * r.recordLength
+
+theorem encRecs7_spec (rs : List FileRec) (h : ∀ r ∈ rs, WFRec r) :
+    Impl.encRecs7 rs = .ok (rs.flatMap fileSubReq) := by
+  induction rs with
+  | nil => rfl
+  | cons r rs ih =>
+    obtain ⟨h1, h2, h3⟩ := h r (by simp)
+    simp only [WFRec, U16] at h1 h2 h3
+    simp [Impl.encRecs7, packB_ok (show 6 < 256 by decide), packH_ok h1, packH_ok h2, packH_ok h3,
+      ih (fun x hx => h x (by simp [hx])), fileSubReq, bind, Except.bind, pure, Except.pure]
+
+theorem encRecsWrite_spec (rs : List FileRec) (h : ∀ r ∈ rs, WFRec r) :
+    Impl.encRecsWrite rs = .ok (rs.flatMap fileSubWrite) := by
+  induction rs with
+  | nil => rfl
+  | cons r rs ih =>
+    obtain ⟨h1, h2, h3⟩ := h r (by simp)
+    simp only [WFRec, U16] at h1 h2 h3
+    simp [Impl.encRecsWrite, packH_ok h1, packH_ok h2, packH_ok h3,
+      ih (fun x hx => h x (by simp [hx])), fileSubWrite, fileSubReq, bind, Except.bind, pure, Except.pure]
+
+theorem sumMap_write (rs : List FileRec) (h : ∀ r ∈ rs, WFRecWrite r) :
+    Impl.sumMap (fun r => r.recordLength * 2 + 7) rs = PduSpec.sum (rs.map (fun r => 7 + r.recordData.length)) := by
+  induction rs with
+  | nil => rfl
+  | cons r rs ih =>
+    have hr := (h r (by simp)).2
+    have := ih (fun x hx => h x (by simp [hx]))
+    simp only [Impl.sumMap, PduSpec.sum, List.map_cons, List.foldr_cons] at this ⊢
+    omega
+
+/-- Read File Record request: byte count 7·n, then per sub-request `06 file record length` -/
+theorem enc_readFileRecord_req_conforms (rs : List FileRec) (h : ∀ r ∈ rs, WFRec r) (hl : 7 * rs.length < 256) :
+    Impl.encReq (.readFileRecord rs) = .ok (PduSpec.encReq (.readFileRecord rs)) := by
+  have hl' : rs.length * 7 < 256 := by omega
+  simp [Impl.encReq, PduSpec.encReq, packB_ok hl', encRecs7_spec rs h, bind, Except.bind, pure, Except.pure]
+  omega
+
+/-- Write File Record request: byte count Σ(7 + 2·Nᵢ), then per sub-request `06 file record length data` -/
+theorem enc_writeFileRecord_req_conforms (rs : List FileRec) (h : ∀ r ∈ rs, WFRecWrite r)
+    (hl : PduSpec.sum (rs.map (fun r => 7 + r.recordData.length)) < 256) :
+    Impl.encReq (.writeFileRecord rs) = .ok (PduSpec.encReq (.writeFileRecord rs)) := by
+  have hs := sumMap_write rs h
+  simp [Impl.encReq, PduSpec.encReq, hs, packB_ok hl, encRecsWrite_spec rs (fun r hr => (h r hr).1),
+    bind, Except.bind, pure, Except.pure]
+
+/-- … and the Write File Record response (an echo of the request) -/
+theorem enc_writeFileRecord_resp_conforms (rs : List FileRec) (h : ∀ r ∈ rs, WFRecWrite r)
+    (hl : PduSpec.sum (rs.map (fun r => 7 + r.recordData.length)) < 256) :
+    Impl.encResp (.writeFileRecord rs) = .ok (PduSpec.encResp (.writeFileRecord rs)) := by
+  have hs := sumMap_write rs h
+  simp [Impl.encResp, PduSpec.encResp, hs, packB_ok hl, encRecsWrite_spec rs (fun r hr => (h r hr).1),
+    bind, Except.bind, pure, Except.pure]
+
+example : WFRecWrite { fileNumber := 4, recordNumber := 7, recordLength := 2, recordData := [0, 1, 0, 2] } := by
+  simp [WFRecWrite, WFRec, U16]
+
+
+
 theorem packBits_spec (bits : List Bool) : packBits bits = PduSpec.packBits bits := packBits_eq_spec bits
 
 theorem packBits_length (bits : List Bool) : (packBits bits).length = (bits.length + 7) / 8 := by
